@@ -3,6 +3,7 @@ package hist
 import (
 	"fmt"
 	"sort"
+	"strings"
 
 	art "github.com/Clement-Jean/go-art"
 	"golang.org/x/text/collate"
@@ -46,6 +47,11 @@ type CollSpec struct {
 // custom=false uses the tree's default collator (root locale), the only
 // possibility for []rune keys.
 func NewCollUniverse(sp CollSpec, cfg CollatorCfg, keyType string, custom bool) *Universe {
+	return NewCollUniverseD(sp, cfg, keyType, custom, nil)
+}
+
+// NewCollUniverseD: string-keyed collation universe with a driver factory for other value types.
+func NewCollUniverseD(sp CollSpec, cfg CollatorCfg, keyType string, custom bool, mkS func(*KeySpec[string], map[string]int) Driver) *Universe {
 	oracle := cfg.New()
 	// keep a subset the collator tells apart pairwise (the property's side condition)
 	filter := func(in []string, kept *[]string) []string {
@@ -110,6 +116,10 @@ func NewCollUniverse(sp CollSpec, cfg CollatorCfg, keyType string, custom bool) 
 				return NewDriver[string](art.NewCollationSortedTree[string, int](art.WithCollator[string, int](cfg.New())), spec, index)
 			}
 			return NewDriver[string](art.NewCollationSortedTree[string, int](), spec, index)
+		}
+		if mkS != nil {
+			spec.Fresh = func(s string) string { return strings.Clone(s) }
+			u.New = func() Driver { return mkS(spec, index) }
 		}
 	case "[]byte":
 		bk := make([][]byte, len(keys))
